@@ -2,7 +2,7 @@
 from checks import textcomp, rtcomp, rtxcomp
 
 LEAN_TARGETS = ["LyModel.Props.C12", "LyModel.XmlTree.OpaqDoc", "LyModel.XmlTree.OpaqOk", "LyModel.XmlTree.OpaqRoundtrip",
-                "LyModel.XmlTree.OpaqCheck", "LyModel.XmlTree.OpaqFaithful"]
+                "LyModel.XmlTree.OpaqCheck", "LyModel.XmlTree.OpaqFaithful", "LyModel.XmlTree.DataCheck", "LyModel.XmlTree.DataFaithful"]
 AUDIT = "Audit/C12.lean"
 GENERATED = ["XmlEsc", "JsonEsc", "JsonTyping", "XmlNsFixes"]
 ASSUMPTIONS = ["UTF-8 well-formedness of the output is judged by expat / Python json in the correspondence run, not by the Lean spec readers",
@@ -24,3 +24,4 @@ def run(cx):
     rtcomp.run_rt(cx, laws=("independent",))
     rtxcomp.run_rtx(cx, laws=("independent",))
     rtxcomp.run_opaq(cx)
+    rtxcomp.run_xmeta(cx)
